@@ -32,6 +32,9 @@
 (*           _connect/_schedule_connect refuse to work when closed         *)
 (*   F_CAP   a message whose write is in progress still counts towards the *)
 (*           queue capacity (it returns to the queue if the write fails)   *)
+(*   F_WAITCLOSE _disconnect waits for wait_closed() even when the writer   *)
+(*           is already closing (FALSE: it does not - not a defect of the  *)
+(*           pinned tree; shows that overlapping resets are exercised)     *)
 (*   F_CLOCK the drain reads the clock for every entry (FALSE: once before *)
 (*           the loop - not a defect of the pinned tree; kept to show that *)
 (*           the stall model exercises the expiry clause)                  *)
@@ -45,7 +48,7 @@
 EXTENDS Naturals, Integers, Sequences, FiniteSets, FiniteSetsExt, TLC, TLCExt
 
 CONSTANTS MaxConn, MaxTask, MaxMsg, MaxEnv, H, ConnSubs, MsgSubs, SubSends, QCap,
-          F_ENQ, F_DRAIN, F_ONE, F_CLOSE, F_CAP, F_CLOCK, Stalls, Record, Kinds, Policies
+          F_ENQ, F_DRAIN, F_ONE, F_CLOSE, F_CAP, F_CLOCK, F_WAITCLOSE, Stalls, Record, Kinds, Policies
 
 C == INSTANCE SocketContract WITH QMAX <- QCap
 
@@ -62,7 +65,7 @@ T(kind, pc, arg) == [kind |-> kind, pc |-> pc, stk |-> <<>>, arg |-> arg, hops |
 S0 == [isOpen |-> FALSE, isConn |-> FALSE, reader |-> None, writer |-> None, queue |-> <<>>,
        connTask |-> None, inflight |-> 0,
        conn |-> <<>>, lostDone |-> <<>>, rx |-> <<>>, eof |-> <<>>, fault |-> <<>>,
-       stalled |-> <<>>, armStall |-> <<>>,
+       stalled |-> <<>>, armStall |-> <<>>, closeWait |-> <<>>,
        task |-> <<>>, ready |-> <<>>, running |-> None, batch |-> 0,
        now |-> 0, nmsg |-> 0, nenv |-> 0, iters |-> 0, calls |-> 0]
 
@@ -167,10 +170,16 @@ Seg(s, t) ==
         IF s.writer # None
         THEN LET w  == s.writer
                  cl == s.conn[w] \in {"up", "half"}
-                 s1 == IF cl THEN [s EXCEPT !.conn[w] = "cclosed", !.ready = Append(@, <<"lost", w>>),
-                                            !.stalled[w] = FALSE, !.armStall[w] = FALSE] ELSE s
-                 o  == IF cl THEN EndStallEv(s, w) \o <<Ev(s, [e |-> "cclose", t |-> 0, c |-> w - 1])>> ELSE <<>>
-             IN IF s1.lostDone[w]
+                 \* transport.close() with unsent data (a stalled link) completes only when the buffer has
+                 \* drained: connection_lost, and with it wait_closed(), are deferred until the stall ends
+                 df == cl /\ s.stalled[w]
+                 s1 == IF df THEN [s EXCEPT !.conn[w] = "cclosed", !.closeWait[w] = TRUE, !.armStall[w] = FALSE]
+                       ELSE IF cl THEN [s EXCEPT !.conn[w] = "cclosed", !.ready = Append(@, <<"lost", w>>),
+                                                 !.stalled[w] = FALSE, !.armStall[w] = FALSE] ELSE s
+                 o  == IF cl THEN (IF df THEN <<>> ELSE EndStallEv(s, w)) \o <<Ev(s, [e |-> "cclose", t |-> 0, c |-> w - 1])>> ELSE <<>>
+             IN IF ~F_WAITCLOSE /\ ~cl /\ ~s1.lostDone[w]
+                THEN {R(Cont(SetPc(s1, t, "D1"), t), o)}            \* (variant: a writer already closing is not waited for)
+                ELSE IF s1.lostDone[w]
                 THEN { R(r, o) : r \in Hops(s1, t, "D1") }          \* shield(): at least one turn
                 ELSE { R(Stop([s1 EXCEPT !.task[t].pc = "D0wait", !.task[t].arg = w]), o) }
         ELSE {R(Cont(SetPc(s, t, "D1"), t), <<>>)}
@@ -188,7 +197,7 @@ Seg(s, t) ==
         ELSE LET c  == NC(s) + 1
                  s1 == [s EXCEPT !.conn = Append(@, "pending"), !.lostDone = Append(@, FALSE),
                                  !.rx = Append(@, <<>>), !.eof = Append(@, FALSE), !.fault = Append(@, FALSE),
-                                 !.stalled = Append(@, FALSE), !.armStall = Append(@, FALSE),
+                                 !.stalled = Append(@, FALSE), !.armStall = Append(@, FALSE), !.closeWait = Append(@, FALSE),
                                  !.task[t].pc = "K2wait", !.task[t].arg = c]
              IN {R(Stop(s1), <<Ev(s, [e |-> "attempt", t |-> 0, c |-> c - 1])>>)}
   [] pc = "K3" ->          \* open_connection returned: arg = connection
@@ -247,7 +256,7 @@ Seg(s, t) ==
                      IN {R(Cont([s1 EXCEPT !.task[t].stk = <<>>,
                                            !.task[t].pc = IF top = "Sret" THEN "Sexc"
                                                           ELSE IF me.kind = "connect" THEN "K4x" ELSE "done"], t), <<>>)}
-           ELSE LET good == s.conn[w] \in {"up", "half"} /\ ~s.fault[w]
+           ELSE LET good == (s.conn[w] \in {"up", "half"} \/ s.closeWait[w]) /\ ~s.fault[w]
                     tx   == Ev(s, [e |-> "txframe", t |-> 0, c |-> w - 1, ok |-> TRUE, alts |-> <<q.m>>,
                                    failed |-> ~good, nw |-> IF good THEN 1 ELSE 0,
                                    to |-> 128, from |-> 176, pid |-> 0, type |-> 44])
@@ -468,11 +477,15 @@ ArmStall ==
 Unstall ==
   \E c \in Cn(S) :
     /\ Stalls /\ S.stalled[c]
-    /\ LET rw == DrainWaiters(S, c)
-       IN EnvStep([S EXCEPT !.stalled[c] = FALSE,
-                            !.task = [t \in Tasks(S) |-> IF t \in rw THEN [S.task[t] EXCEPT !.pc = "Rdrained"] ELSE S.task[t]],
-                            !.ready = @ \o Handles(rw)],
-                  <<Ev(S, [e |-> "unstall", t |-> 0, c |-> c - 1, ended |-> FALSE])>>, [op |-> "resume", c |-> c - 1])
+    /\ IF S.closeWait[c]
+       THEN \* the buffer of a connection the client has closed drains: the close completes
+            EnvStep([S EXCEPT !.stalled[c] = FALSE, !.closeWait[c] = FALSE, !.ready = Append(@, <<"lost", c>>)],
+                    <<Ev(S, [e |-> "unstall", t |-> 0, c |-> c - 1, ended |-> TRUE])>>, [op |-> "resume", c |-> c - 1])
+       ELSE LET rw == DrainWaiters(S, c)
+            IN EnvStep([S EXCEPT !.stalled[c] = FALSE,
+                                 !.task = [t \in Tasks(S) |-> IF t \in rw THEN [S.task[t] EXCEPT !.pc = "Rdrained"] ELSE S.task[t]],
+                                 !.ready = @ \o Handles(rw)],
+                       <<Ev(S, [e |-> "unstall", t |-> 0, c |-> c - 1, ended |-> FALSE])>>, [op |-> "resume", c |-> c - 1])
 
 \* a checkpoint of the contract: the loop has nothing left to do
 Checkpoint ==
